@@ -64,3 +64,10 @@ func SignTx(chainID string, signer *Account, accNum, seq uint64, memo string, ms
 	}
 	return bz, nil
 }
+
+// DecodeAccount decodes a raw auth-store account value.
+func DecodeAccount(bz []byte) (authtypes.AccountI, error) {
+	var acc authtypes.AccountI
+	err := encCfg.Marshaler.UnmarshalInterface(bz, &acc)
+	return acc, err
+}
